@@ -35,6 +35,9 @@ func init() {
 			"Marshal / WriteTo into a writer that fails after every number of accepted bytes below the encoding's length (partial or refused last write): an error must come back, and the value encodes unchanged afterwards into a writer that takes exactly the encoding; " +
 			"stream decoders read their own encoding, truncations of it and encodings behind which the reader fails with a non-EOF error through readers with short reads (1 byte, 1-7, 16-64, one split point, last bytes together with io.EOF, empty reads, N-byte pieces, bufio with a 16-byte buffer): whatever is accepted is judged as through the other readers; " +
 			"arrays of 511 B .. 310 KiB (sizes around 512 B, 4 KiB, 32 KiB, 64 KiB) in Uint32SizedArray / TCGEventData / TCG_PCR_EVENT2 / log, all stream probes with sampled truncations plus cuts around those sizes, pieces of 512..32769 bytes; SP800-155 events of exactly 65504 bytes and less (in range), 65505..65512 (counted) and 65513.. (out of range). " +
+			"Appended cases (owned.go), the caller owns the input and goes on using it: 2-4 records of any stream structure are decoded one after the other from ONE input (bytes.Buffer over the caller's slice, bytes.Buffer used as a queue that is written to between decodes - with/without Reset, with/without pre-grown storage -, bytes.Reader, bufio.Reader with a 16..4096-byte buffer, reader with short reads), " +
+			"all decoded values are kept and judged at return, after the last record and after the caller filled / inverted / rewrote its slice, refilled its queue or drained the bufio buffer; the same sequence again on fresh storage with the caller appending 1-24 bytes to every byte slice of each decoded value (result dropped) and overwriting a third of the values in place before decoding the next record, then decoding its untouched slice again; " +
+			"SP800155Event3.UnmarshalFromBytes / SevEsResetBlockFromBytes / TDXMetadataFromBytes read 2-3 records one after the other from one scratch slice of the caller (same two probes). " +
 			"Oracle (one-directional): encoder output equals the reference encoding and touches exactly the ABI size; decode(encode(v)) = v with exactly the encoding consumed; in-range values and documented-size zero reserved fields are accepted; " +
 			"out-of-range fields and non-zero reserved fields are refused; an accepted byte string re-encodes to itself (SP800-155 trailing zero padding excepted). Refusals of malformed input are counted, never judged; a panic on malformed input counts as a refusal. " +
 			"non-trivial = distinct (structure, probe, outcome) cells",
@@ -256,7 +259,8 @@ func run(c *core.Ctx) {
 		c.Count("cases/"+k.name, 1)
 		c.End(i)
 	}
-	runAudit(c, st, n) // the audit's dimensions: cases n, n+1, ... (audit.go)
+	next := runAudit(c, st, n) // the audit's dimensions: cases n, n+1, ... (audit.go)
+	runOwned(c, st, next)      // the caller owns the input and goes on using it: cases behind the audit's (owned.go)
 	for _, f := range floorNames {
 		c.Floor(f, floors[f] > 0)
 	}
